@@ -1,7 +1,358 @@
-"""C09 -- jobs added for the wave-11 seeds (two cooperating sites); see the docstring of each job"""
-from pyvc.run import BResult, Job  # noqa: F401
+"""C09 -- jobs added for the wave-11 seeds (two cooperating sites); see the docstring of each job
+
+C09/label-sliding/delete-histories (E)      real _modify.delete under the real make_modify_cache / prepare_for_rewriting
+C09/label-sliding/later-patch-bounded (B)   RewritingContext.apply: whole-block deletions + a later patch that names the label
+
+Dimension the older jobs did not vary: WHICH blocks of a run of adjacent deleted blocks carry a label of their own.  In bounded/scen.py
+every block has its own symbol, so a block whose only references are the ones it INHERITED (inside the same apply(), i.e. held
+indirectly by the ReferenceCache) from a neighbour removed before it never got removed itself.  Here every block of a chain is, independently,
+without label / labelled at its start / labelled at its start and at its end, every non-empty set of chain blocks is deleted in address order
+(optionally one of the deletions with retarget_to_proxy), and the caches are looked at through their public queries at every intermediate step.
+"""
+import itertools
+import logging
+
+import gtirb
+import gtirb_functions
+import z3
+from gtirb_test_helpers import add_code_block, add_edge, add_function, add_proxy_block, add_symbol, add_text_section, create_test_module
+
+from gtirb_rewriting import rewriting as RW
+from gtirb_rewriting._modify import delete as REAL_DELETE
+from gtirb_rewriting._modify.cache import make_modify_cache
+from gtirb_rewriting.prepare import prepare_for_rewriting
+
+from pyvc.run import BResult, Job
+
+NCHAIN = 3                     # c0..c2 can be deleted; c3 = [ret] ends the function and stays; v = [nop; ret] is another function
+LABEL_STATES = ("none", "start", "start+end")
+
+
+def label_layouts():
+    """per chain block: no label of its own / a label at its start / labels at its start and at its end.  All layouts over
+    {none, start} and all layouts over {none, start+end} (the mixed ones add nothing: a block's own labels are handled one by one)"""
+    seen = []
+    for states in (("none", "start"), ("none", "start+end")):
+        for lay in itertools.product(states, repeat=NCHAIN):
+            if lay not in seen:
+                seen.append(lay)
+    return seen
+
+
+# ------------------------------------------------------------------------------------------------ the module family
+def build(labels, funcs):
+    """f: c0 [push %rax] -> c1 [push %rcx] -> c2 [push %rdx] -> c3 [ret]      other: v [nop; ret]
+    labels[i] in LABEL_STATES says what c<i> carries itself: nothing / L<i> at its start / L<i> at its start and E<i> at its end.
+    With function information c0 additionally carries the function's name f (functionNames needs a symbol)."""
+    ir, m = create_test_module(gtirb.Module.FileFormat.ELF, gtirb.Module.ISA.X64)
+    _, bi = add_text_section(m, address=0x1000)
+    B = {}
+    for i in range(NCHAIN):
+        B["c%d" % i] = add_code_block(bi, bytes([0x50 + i]))
+    B["c%d" % NCHAIN] = add_code_block(bi, b"\xc3")
+    B["v"] = add_code_block(bi, b"\x90\xc3")
+    for i, st in enumerate(labels):
+        if st != "none":
+            add_symbol(m, "L%d" % i, B["c%d" % i])
+        if st == "start+end":
+            add_symbol(m, "E%d" % i, B["c%d" % i]).at_end = True
+    other = add_symbol(m, "other", B["v"])
+    for i in range(NCHAIN):
+        add_edge(ir.cfg, B["c%d" % i], B["c%d" % (i + 1)], gtirb.EdgeType.Fallthrough)
+    add_edge(ir.cfg, B["c%d" % NCHAIN], add_proxy_block(m), gtirb.EdgeType.Return)
+    add_edge(ir.cfg, B["v"], add_proxy_block(m), gtirb.EdgeType.Return)
+    if funcs:
+        f = add_symbol(m, "f", B["c0"])
+        add_function(m, f, B["c0"], {B["c%d" % i] for i in range(1, NCHAIN + 1)})
+        add_function(m, other, B["v"])
+    return ir, m, B
+
+
+def functions_of(m, funcs):
+    return gtirb_functions.Function.build_functions(m) if funcs else []
+
+
+class Namer:
+    """UUID-free names: the blocks of the family keep their identity through deletions (nothing is split), so a block is named by
+    the role it was built in; a block that left the module says so; proxies are anonymous"""
+
+    def __init__(self, B):
+        self.names = {id(b): n for n, b in B.items()}
+
+    def __call__(self, node):
+        if node is None:
+            return "none"
+        if isinstance(node, gtirb.ProxyBlock):
+            return "proxy" if node.module is not None else "DETACHED proxy"
+        n = self.names.get(id(node), "new-block")
+        return n if node.byte_interval is not None and node.module is not None else "DETACHED " + n
+
+
+def symbol_state(m, name_of):
+    """what the IR itself says: symbol -> (referent, at_end); only meaningful when no reference is held indirectly (outside a context)"""
+    return {s.name: (name_of(s.referent), bool(s.at_end)) for s in m.symbols}
+
+
+def module_signature(ir, m, name_of):
+    sig = {"symbols": sorted(symbol_state(m, name_of).items()),
+           "edges": sorted((name_of(e.source), name_of(e.target), e.label.type.name if e.label else "-", bool(e.label and e.label.conditional)) for e in ir.cfg),
+           "blocks": [(name_of(b), bytes(b.contents).hex()) for b in sorted(m.byte_blocks, key=lambda b: (b.address, b.size != 0))]}
+    for tab in ("functionBlocks", "functionEntries"):
+        if tab in m.aux_data:
+            names = m.aux_data["functionNames"].data
+            sig[tab] = sorted((names[u].name if u in names else "?", sorted(name_of(b) for b in bs)) for u, bs in m.aux_data[tab].data.items())
+    return sig
+
+
+def deletion_plans():
+    """every non-empty set of chain blocks, in address order; the last deletion with and without retarget_to_proxy (a proxy deletion
+    earlier in the plan takes the labels out of the chain: nothing slides any further)"""
+    for r in range(1, NCHAIN + 1):
+        for combo in itertools.combinations(range(NCHAIN), r):
+            yield [(i, False) for i in combo]
+            yield [(i, k == r - 1) for k, i in enumerate(combo)]
+
+
+def one_at_a_time(labels, funcs, plan):
+    """the property's reference: one context per deletion, in address order.  Returns the symbol state after every step (all references
+    are direct between contexts: this is the IR itself) and the final signature."""
+    ir, m, B = build(labels, funcs)
+    name_of = Namer(B)
+    states = [symbol_state(m, name_of)]
+    for i, proxy in plan:
+        with prepare_for_rewriting(m, b"\x90"), make_modify_cache(m, functions_of(m, funcs)) as cache:
+            b = B["c%d" % i]
+            REAL_DELETE(cache, b, 0, b.size, proxy)
+        states.append(symbol_state(m, name_of))
+    return states, module_signature(ir, m, name_of)
+
+
+def batch(labels, funcs, plan, observe_after=None, how=None):
+    """all deletions in ONE context (what apply() does).  After `observe_after` deletions the caches are asked, through their public
+    queries only, where every symbol is (how = 'get_referent') or which symbols every live block has (how = 'get_references',
+    'get_references-first': the generator abandoned after its first symbol); the run then goes on to the end.
+    Returns (observation, final signature)."""
+    ir, m, B = build(labels, funcs)
+    name_of = Namer(B)
+    seen = None
+    with prepare_for_rewriting(m, b"\x90"), make_modify_cache(m, functions_of(m, funcs)) as cache:
+        for k, (i, proxy) in enumerate(plan):
+            if observe_after == k:
+                seen = observe(cache, m, name_of, how)
+            b = B["c%d" % i]
+            REAL_DELETE(cache, b, 0, b.size, proxy)
+        if observe_after == len(plan):
+            seen = observe(cache, m, name_of, how)
+    return seen, module_signature(ir, m, name_of)
+
+
+def observe(cache, m, name_of, how):
+    rc = cache.reference_cache
+    if how == "get_referent":
+        out = {}
+        for s in sorted(m.symbols, key=lambda s: s.name):
+            r = rc.get_referent(s)
+            out[s.name] = (name_of(r), bool(s.at_end))
+        return out
+    out = {}
+    nodes = sorted(list(m.byte_blocks) + list(m.proxies), key=lambda n: (name_of(n), str(n.uuid)))
+    for n in nodes:
+        g = rc.get_references(n)
+        if how == "get_references-first":
+            syms = [x for x in [next(g, None)] if x is not None]
+        else:
+            syms = list(g)
+        for s in syms:
+            out.setdefault(s.name, []).append((name_of(n), name_of(s.referent), bool(s.at_end)))
+    return out
+
+
+# ------------------------------------------------------------------------------------------------ E: delete histories
+C_REF = "C09/label-sliding/get_referent-at-every-step-is-where-one-at-a-time-application-puts-the-symbol"
+C_REFS = "C09/label-sliding/get_references-at-every-step-yields-exactly-the-symbols-one-at-a-time-application-gives-the-block"
+C_LIVE = "C09/label-sliding/no-symbol-is-reported-on-a-block-that-left-the-module"
+C_OBS = "C09/label-sliding/asking-the-caches-in-mid-rewrite-does-not-change-the-result"
+C_EQ = "C09/label-sliding/batch-equals-one-at-a-time"
+C_RUN = "C09/label-sliding/batch-applies-iff-one-at-a-time-does"
+
+
+def _diff(a, b):
+    if isinstance(a, dict) and isinstance(b, dict):
+        ks = sorted(k for k in set(a) | set(b) if a.get(k) != b.get(k))
+        return "; ".join("%s: %s, one at a time %s" % (k, a.get(k), b.get(k)) for k in ks[:3])
+    return "%s, one at a time %s" % (a, b)
+
+
+def delete_histories_harness(ctx):
+    """E, on the real _modify.delete / remove_block / ReferenceCache under the real make_modify_cache and prepare_for_rewriting.
+
+    Universe: the family of build(): the label layouts of label_layouts() (15; with function information the 8 layouts over none / start)
+    x every non-empty set of chain blocks deleted whole, in address order, the last one with and without retarget_to_proxy (14 plans).
+    For each member
+      * the reference run applies the deletions one at a time, each in its own context (property text); between contexts every
+        reference is direct, so the reference's symbol table after k deletions IS the IR's answer at step k;
+      * the batch run applies them in one context; it is repeated once per step k = 1..n and per public query (get_referent of every
+        symbol / get_references of every live block; before the last deletion also get_references abandoned after its first symbol),
+        asking after k deletions in an otherwise undisturbed run: the answers have to be the reference's state at step k (never a block
+        that left the module), and -- the caches being transparent -- the run continued to the end has to give the reference's final
+        module whatever was asked on the way."""
+    logging.getLogger("gtirb_rewriting").setLevel(logging.CRITICAL)
+    plans = list(deletion_plans())
+    nruns = 0
+    chains_of_inherited_only = 0
+    layouts = label_layouts()
+    members = [(False, lay) for lay in layouts] + [(True, lay) for lay in layouts if "start+end" not in lay]
+    for funcs, labels in members:
+        bad = {}
+
+        def note(clause, plan, extra, detail):
+            bad.setdefault(clause, "labels %s funcs=%s delete %s%s: %s" % (list(labels), funcs, ["c%d%s" % (i, "->proxy" if p else "") for i, p in plan], extra, detail))
+        for plan in plans:
+            try:
+                states, final = one_at_a_time(labels, funcs, plan)
+                rexc = None
+            except Exception as ex:      # noqa
+                rexc = ex
+            try:
+                _, bfinal = batch(labels, funcs, plan)
+                bexc = None
+            except Exception as ex:      # noqa
+                bexc = ex
+            nruns += 2
+            if rexc or bexc:
+                if bool(rexc) != bool(bexc):
+                    note(C_RUN, plan, "", "batch %s / one at a time %s" % (type(bexc).__name__ if bexc else "ok", type(rexc).__name__ if rexc else "ok"))
+                continue
+            # a block deleted right after its deleted predecessor while it carries no label of its own and something slid into it
+            for (i, _), (j, _) in zip(plan, plan[1:]):
+                if j == i + 1 and labels[j] == "none" and (labels[i] != "none" or (funcs and i == 0)):
+                    chains_of_inherited_only += 1
+            if bfinal != final:
+                note(C_EQ, plan, "", _diff(dict((k, v) for k, v in bfinal.items()), dict((k, v) for k, v in final.items())))
+            for k in range(1, len(plan) + 1):
+                want = states[k]
+                for how in ("get_referent", "get_references") + (("get_references-first",) if k == len(plan) - 1 else ()):
+                    nruns += 1
+                    at = " [%s after %d deletion(s)]" % (how, k)
+                    try:
+                        seen, ofinal = batch(labels, funcs, plan, k, how)
+                    except Exception as ex:      # noqa
+                        note(C_OBS, plan, at, "%s: %s" % (type(ex).__name__, str(ex)[:80]))
+                        continue
+                    if how == "get_referent":
+                        if seen != want:
+                            note(C_REF, plan, at, _diff(seen, want))
+                        if any(v[0].startswith("DETACHED") for v in seen.values()):
+                            note(C_LIVE, plan, at, str({n: v for n, v in seen.items() if v[0].startswith("DETACHED")}))
+                    else:
+                        # every yielded symbol is yielded once, by the block it is on in the reference, and is direct on that block
+                        flat = {n: v for n, v in seen.items()}
+                        wrong = {n: v for n, v in flat.items() if len(v) != 1 or v[0][0] != want[n][0] or (v[0][1], v[0][2]) != want[n]}
+                        if how == "get_references" and set(flat) != set(want):
+                            wrong.update({n: "not yielded by any live block" for n in set(want) - set(flat)})
+                        if wrong:
+                            n0 = sorted(wrong)[0]
+                            note(C_REFS, plan, at, "%s: %s, one at a time %s" % (n0, wrong[n0], want[n0]))
+                        if any(x[0].startswith("DETACHED") or x[1].startswith("DETACHED") for v in flat.values() for x in v):
+                            note(C_LIVE, plan, at, str(flat))
+                    if ofinal != final:
+                        note(C_OBS, plan, at, _diff(ofinal, final))
+        for c in (C_RUN, C_EQ, C_REF, C_REFS, C_LIVE, C_OBS):
+            ctx.prove(c, z3.BoolVal(c not in bad), note=bad.get(c, ""))
+    ctx.prove("C09/label-sliding/enumeration-is-not-vacuous",
+              z3.BoolVal(len(plans) == 14 and len(members) == 23 and nruns >= 23 * 14 * 4 and chains_of_inherited_only >= 40),
+              note="%d plans, %d members, %d runs, %d adjacent deletions into a block that has only inherited labels" % (len(plans), len(members), nruns, chains_of_inherited_only))
+    ctx.cover("enumerated")
+
+
+# ------------------------------------------------------------------------------------------------ B: a later patch names the label
+PATCH_KINDS = {"jmp": "jmp %s", "call": "call %s\nnop", "jcc": "je %s\nnop", "lea": "leaq %s(%%rip), %%rax"}
+
+
+def later_patch_bounded(tier, seed):
+    """B, apply() level (quantifier case of C09: a later patch names, branches to or calls a label whose block an earlier modification
+    deleted).  The family of build() restricted to label states none / start (at least one label), every non-empty set of chain blocks
+    deleted whole (no proxy), and ONE patch inserted behind them (into c3, the rest of the same function, or into v, another function)
+    that jumps to / calls / conditionally jumps to / takes the address of one of the labels.  Batch = one apply(); one at a time = one
+    context per modification in address order.  Clauses: same module; the patch's branch / call edge leads to the block the label is on
+    after the rewrite, which is a block of the module."""
+    def run():
+        from bounded import scen
+        logging.getLogger("gtirb_rewriting").setLevel(logging.CRITICAL)
+        br = BResult()
+        br.bound = ("chain c0 c1 c2 [ret] + other function; every chain block with / without a label of its own (>= 1 label), with / without function "
+                    "information; every non-empty set of chain blocks deleted whole; one patch (jmp / call / je / lea of one of the labels) "
+                    "inserted into the function's last block or into the other function; batch vs one context per modification")
+        br.clauses = ["C09/later-patch/batch-applies-iff-one-at-a-time-does", "C09/later-patch/batch-equals-one-at-a-time",
+                      "C09/later-patch/edge-of-the-patch-leads-to-the-live-block-the-label-is-on"]
+        kinds = list(PATCH_KINDS)
+        sites = ("c%d" % NCHAIN, "v")
+        n = 0
+        for labels in itertools.product(("none", "start"), repeat=NCHAIN):
+            names = ["L%d" % i for i, st in enumerate(labels) if st != "none"]
+            for r in range(1, NCHAIN + 1):
+                for combo in itertools.combinations(range(NCHAIN), r):
+                    for target in names:
+                        for funcs in (False, True):
+                            # the patch vocabulary and the insertion site are rotated over the cases instead of crossed with them (every
+                            # kind and site meets every deletion set and label layout several times)
+                            c = n // 2                      # (the same patch and site with and without function information)
+                            kind, site = kinds[c % len(kinds)], sites[(c // len(kinds) + c) % 2]
+                            n += 1
+                            desc = {"own labels": list(labels), "function information": funcs, "delete": ["c%d" % i for i in combo],
+                                    "patch": PATCH_KINDS[kind] % target, "inserted at the start of": site}
+
+                            def go(one_context):
+                                ir, m, B = build(labels, funcs)
+                                name_of = Namer(B)
+                                mods = [("del", "c%d" % i) for i in combo] + [("ins", site)]
+                                groups = [mods] if one_context else [[x] for x in mods]
+                                try:
+                                    for g in groups:
+                                        rc = RW.RewritingContext(m, functions_of(m, funcs))
+                                        for op, bn in g:
+                                            if op == "del":
+                                                rc.delete_at(B[bn], 0, B[bn].size)
+                                            else:
+                                                rc.insert_at(B[bn], 0, scen.mkpatch(PATCH_KINDS[kind] % target))
+                                        rc.apply()
+                                except Exception as ex:      # noqa
+                                    return "%s: %s" % (type(ex).__name__, str(ex)[:80]), None
+                                sig = module_signature(ir, m, name_of)
+                                sym = [s for s in m.symbols if s.name == target][0]
+                                want_type = {"jmp": "Branch", "jcc": "Branch", "call": "Call"}.get(kind)
+                                problem = None
+                                if sym.referent is None or name_of(sym.referent).startswith("DETACHED"):
+                                    problem = "%s is on %s" % (target, name_of(sym.referent))
+                                elif want_type:
+                                    tg = [e.target for e in ir.cfg if e.label and e.label.type.name == want_type]
+                                    if len(tg) != 1 or tg[0] is not sym.referent:
+                                        problem = "%s edge(s) to %s, %s is on %s" % (want_type, [name_of(t) for t in tg], target, name_of(sym.referent))
+                                return sig, problem
+                            br.cases += 1
+                            a, pa = go(True)
+                            b, pb = go(False)
+                            if isinstance(a, str) or isinstance(b, str):
+                                if isinstance(a, str) != isinstance(b, str):
+                                    br.failures.append({"clause": "C09/later-patch/batch-applies-iff-one-at-a-time-does", "witness": desc,
+                                                        "detail": "batch: %s / one at a time: %s" % (a if isinstance(a, str) else "ok", b if isinstance(b, str) else "ok")})
+                                continue
+                            br.nontrivial += 1
+                            if pa:
+                                br.failures.append({"clause": "C09/later-patch/edge-of-the-patch-leads-to-the-live-block-the-label-is-on", "witness": desc, "detail": "batch: " + pa})
+                            if pb:
+                                br.failures.append({"clause": "C09/later-patch/edge-of-the-patch-leads-to-the-live-block-the-label-is-on", "witness": dict(desc, mode="one at a time"), "detail": pb})
+                            if a != b:
+                                br.failures.append({"clause": "C09/later-patch/batch-equals-one-at-a-time", "witness": desc, "detail": _diff(a, b)[:400]})
+                            if len(br.samples) < 2:
+                                br.samples.append(desc)
+        return br
+    return run
 
 
 def jobs(tier="quick", seed=0):
-    return
-    yield
+    yield Job("C09/label-sliding/delete-histories", delete_histories_harness, kind="E",
+              func="gtirb_rewriting._modify.edit:delete / remove:remove_block / cache:ReferenceCache under make_modify_cache (whole-block deletions in one context vs one context each)",
+              expect_cover=("enumerated",))
+    yield Job("C09/label-sliding/later-patch-bounded", later_patch_bounded(tier, seed), kind="B",
+              func="gtirb_rewriting.rewriting:RewritingContext.apply (deletions + a later patch naming a label that slid)")
